@@ -80,6 +80,21 @@ func c01SealOpen(mode int, nPt, nAd, nDst, capMode int) {
 	for i := 0; i < nPt; i++ {
 		verifrt.Assert(out[nDst+i] == want[i], "Seal: ciphertext = pt XOR ChaCha20 keystream from counter 1")
 	}
+	if vMacAbstract() {
+		// Engine only: compare what the implementation fed to the (recorded) MAC with the
+		// reference directly, key and message byte by byte. Same obligation and label as the
+		// tag comparison below (which is what fails natively), but free of the UF, so a
+		// refutation is found by evaluation instead of a query over 20-round ARX arguments.
+		pk := vPolyKey(rk, rn)
+		md := vMacData(ad, want[:nPt])
+		verifrt.Assert(len(vMacMsg) == len(md), "Seal: tag = Poly1305(block0[:32], RFC 8439 mac data)")
+		for i := range pk {
+			verifrt.Assert(vMacKey[i] == pk[i], "Seal: tag = Poly1305(block0[:32], RFC 8439 mac data)")
+		}
+		for i := 0; i < len(md) && i < len(vMacMsg); i++ {
+			verifrt.Assert(vMacMsg[i] == md[i], "Seal: tag = Poly1305(block0[:32], RFC 8439 mac data)")
+		}
+	}
 	for i := 0; i < 16; i++ {
 		verifrt.Assert(out[nDst+nPt+i] == want[nPt+i], "Seal: tag = Poly1305(block0[:32], RFC 8439 mac data)")
 	}
